@@ -44,3 +44,56 @@ def _gcd(a, b):
 def units_of(text, den_symbol):
     """Exact number of smallest units of a decimal text in the given denominator (Fraction)."""
     return Fraction(text) * DENOMINATORS[den_symbol] / UNIT
+
+
+# ---- added for C17 -------------------------------------------------------------------------------
+# Unit table derived from the *meaning* of each symbol (not from the library's table):
+#   SI prefixes (BIPM SI brochure, 9th ed., table 7): Y 10^24, Z 10^21, E 10^18, P 10^15, T 10^12, G 10^9, M 10^6,
+#   k 10^3, h 10^2, da 10^1, d 10^-1, c 10^-2, m 10^-3, µ 10^-6, n 10^-9
+#   bitcoin units (https://en.bitcoin.it/wiki/Units): satoshi = 10^-8 BTC, finney = 10 satoshi = 10^-7 BTC,
+#   millisatoshi = 10^-3 sat = 10^-11 BTC (Lightning), microsatoshi = 10^-6 sat = 10^-14 BTC
+# NB the older DENOMINATORS table above has 'fin' = 10^-10, which is not the finney; it is kept untouched for the
+# self-test that uses it, the C17 check uses UNIT_EXP only.
+UNIT_EXP = {
+    'Y': 24, 'Z': 21, 'E': 18, 'P': 15, 'T': 12, 'G': 9, 'M': 6, 'k': 3, 'h': 2, 'da': 1, '': 0,
+    'd': -1, 'c': -2, 'm': -3, 'µ': -6, 'n': -9,
+    'sat': -8, 'fin': -7, 'msat': -11, 'µsat': -14,
+}
+SMALLEST_EXP = -8            # every network of the pinned table has denominator 10^-8
+MAX_UNITS = 21 * 10 ** 14    # 21 million coins in smallest units
+
+
+def den_value(symbol):
+    """Exact value of one <symbol>coin in coins."""
+    e = UNIT_EXP[symbol]
+    return Fraction(10) ** e if e >= 0 else Fraction(1, 10 ** -e)
+
+
+def decimal_text(n_units, symbol, decimals=None, smallest_exp=SMALLEST_EXP):
+    """Exact decimal text of n_units smallest units expressed in denominator `symbol`.
+    decimals=None: shortest form (no trailing zeros, no trailing point); decimals=d: exactly d decimals, or
+    None when d decimals cannot express the amount exactly. Integer/string arithmetic only."""
+    neg = n_units < 0
+    n = -n_units if neg else n_units
+    k = UNIT_EXP[symbol] - smallest_exp          # amount = n / 10^k  (k may be negative)
+    if k <= 0:
+        ip, fp = str(n * 10 ** (-k)), ''
+    else:
+        s = str(n).rjust(k + 1, '0')
+        ip, fp = s[:-k], s[-k:].rstrip('0')
+    if decimals is not None:
+        if len(fp) > decimals:
+            return None
+        fp = fp.ljust(decimals, '0')
+    out = ip + ('.' + fp if fp else '')
+    return '-' + out if neg and n else out
+
+
+def units_from_text(number_text, symbol, smallest_exp=SMALLEST_EXP):
+    """Exact number of smallest units (Fraction) meant by '<number_text> <symbol>'."""
+    return Fraction(number_text) * den_value(symbol) / (Fraction(10) ** smallest_exp)
+
+
+def needed_decimals(symbol, smallest_exp=SMALLEST_EXP):
+    """Decimals needed to express one smallest unit in this denominator (0 for sub-unit denominators)."""
+    return max(0, UNIT_EXP[symbol] - smallest_exp)
